@@ -253,20 +253,44 @@ def strip_comments(txt):
 def print_assumptions(prop_file):
     """Parse the `Print Assumptions` output recorded while compiling Properties/<X>.v."""
     logp = os.path.join(COQ, prop_file.replace('.v', '.assumptions'))
+    pa_dir = os.path.join(WORK, 'pa')
+    os.makedirs(pa_dir, exist_ok=True)
     rc, out, _ = run(['coqc'] + QFLAGS + [os.path.join(COQ, prop_file), '-o',
-                                          os.path.join(WORK, 'pa_%s.vo' % os.path.basename(prop_file)[:-2])],
+                                          os.path.join(pa_dir, os.path.basename(prop_file) + 'o')],
                      timeout=600, cwd=COQ)
     axioms = set()
     closed = 0
     cur = []
-    for line in out.splitlines():
+    lines = out.splitlines()
+    for k, line in enumerate(lines):
         if line.startswith('Closed under the global context'):
             closed += 1
-        m = re.match(r'^([A-Za-z_][A-Za-z0-9_\.\']*)\s*$', line.strip())
         m2 = re.match(r'^([A-Za-z_][A-Za-z0-9_\.\']*) :', line)
-        if m2 and not line.startswith(' '):
+        if m2:
             axioms.add(m2.group(1))
+        m = re.match(r'^([A-Za-z_][A-Za-z0-9_\.\']*)\s*$', line)
+        if m and k + 1 < len(lines) and lines[k + 1].lstrip().startswith(':') and lines[k + 1].startswith(' '):
+            axioms.add(m.group(1))
     return rc == 0, sorted(axioms), closed, out
+
+
+def coqchk(prop_file, timeout=3000):
+    """Re-check the compiled property file and everything it depends on with the independent
+    checker; returns (ok, axioms listed in its context summary, tail of the output)."""
+    mod = 'SSJ.' + os.path.basename(prop_file)[:-2]
+    rc, out, wall = run(['coqchk', '-silent', '-o'] + QFLAGS + [mod], timeout=timeout, cwd=COQ)
+    axioms = []
+    m = re.search(r'\* Axioms:(.*?)\n\s*\n\* Constants/Inductives relying on type-in-type', out, re.S)
+    if m:
+        body = m.group(1).strip()
+        if body != '<none>':
+            axioms = [l.strip() for l in body.splitlines() if l.strip()]
+    bad = []
+    for key in ('type-in-type', 'unsafe (co)fixpoints', 'positivity is assumed'):
+        mm = re.search(re.escape(key) + r':(.*?)(\n\s*\n|$)', out, re.S)
+        if mm and mm.group(1).strip() not in ('<none>', ''):
+            bad.append('%s: %s' % (key, mm.group(1).strip()[:200]))
+    return rc == 0 and not bad, axioms, out[-1500:], round(wall, 1), bad
 
 
 # ----------------------------------------------------------------------------- case evaluation
